@@ -186,7 +186,59 @@ def inlet_sets(ntot, outlet, maxinlets):
             yield list(s)
 
 
-def check_grid(ctx, nrows, ncols, codes, maxinlets, default_nval=False, light=False, prev=None, outlets=None):
+def check_dtypes(ctx, nrows, ncols, codes, base, outlets):
+    """differential: the same codes held by a flow-direction grid of another dtype give the same relations,
+    areas and rivers as the int64 grid"""
+    from hydrodiy.gis.grid import Grid, Catchment, delineate_river
+    ntot = nrows * ncols
+    arr = np.array(codes, dtype=np.int64).reshape(nrows, ncols)
+    allc = np.arange(ntot)
+    outs = list(range(ntot)) if outlets is None else list(outlets)
+
+    def observe(dt):
+        fd = Grid("fd", ncols, nrows, dtype=dt, cellsize=2.0, xllcorner=10.0, yllcorner=-4.0)
+        fd.data = arr.astype(dt)
+        ca = Catchment("c", fd)
+        res = [ca.downstream(allc).tolist(), np.sort(ca.upstream(allc), axis=1).tolist()]
+        for o in outs:
+            try:
+                ca.delineate_area(o, None, nval=ntot + 3)
+                res.append(sorted(int(v) for v in ca.idxcells_area))
+            except ValueError:
+                res.append("ValueError")
+            try:
+                res.append([int(v) for v in delineate_river(fd, o, nval=ntot + 3)["idxcell"].values])
+            except ValueError:
+                res.append("ValueError")
+        return res
+    try:
+        ref = observe(np.int64)
+    except Exception:
+        return
+    dts = [("int32", np.int32), ("float64", np.float64)]
+    if all(0 <= c <= 255 for c in codes):
+        dts.append(("uint8", np.uint8))
+    if all(-2 ** 15 <= c < 2 ** 15 for c in codes):
+        dts.append(("int16", np.int16))
+    for name, dt in dts:
+        if not all(np.array(codes, dtype=np.int64).astype(dt).astype(np.int64).tolist()[i] == codes[i] for i in range(ntot)):
+            continue        # the codes are not representable in this dtype
+        case = dict(base, flowdir_dtype=name)
+        try:
+            obs = observe(dt)
+        except Exception as e:
+            ctx.case(True, outcome="raise")
+            ctx.count("dtype.rejected.%s.%s" % (name, type(e).__name__))
+            continue
+        ctx.case(True, outcome=name)
+        ctx.count("dtype.accepted.%s" % name)
+        if obs != ref:
+            k = next(i for i, (a, b) in enumerate(zip(obs, ref)) if a != b)
+            ctx.violation("flowdir-dtype=%s:differs" % name, case,
+                          "the same codes in a %s flow direction grid give different results (item %d): %r vs int64 %r" % (name, k, obs[k], ref[k]))
+
+
+def check_grid(ctx, nrows, ncols, codes, maxinlets, default_nval=False, light=False, prev=None, outlets=None, dtypes=False):
     from hydrodiy.gis.grid import delineate_river
     ntot = nrows * ncols
     m = FlowModel(nrows, ncols, codes)
@@ -206,6 +258,8 @@ def check_grid(ctx, nrows, ncols, codes, maxinlets, default_nval=False, light=Fa
     nontriv = any(d >= 0 for d in m.down)
     ctx.states += 1
     allc = np.arange(ntot)
+    if dtypes or base.get("flowdir_dtype"):
+        check_dtypes(ctx, nrows, ncols, codes, dict(base, flowdir_dtype=True), outlets)
 
     # ---- downstream / upstream relations
     try:
@@ -382,7 +436,7 @@ def run_unit(unit, ctx):
             if i == 0:
                 ctx.case(False, n=0, sample={"shape": [nr, nc], "strip": STRIP_TAG["current"], "outlets": strip_outlets(n)})
             ctx.count("strip_grids")
-            check_grid(ctx, nr, nc, codes, 0, outlets=strip_outlets(n))
+            check_grid(ctx, nr, nc, codes, 0, outlets=strip_outlets(n), dtypes=True)
             ctx.sup.end()
         return
     nrows, ncols = unit["shape"]
@@ -413,7 +467,8 @@ def run_unit(unit, ctx):
             continue
         if first:
             ctx.case(False, n=0, sample={"shape": [nrows, ncols], "codes": codes, "maxinlets": unit["maxinlets"]})
-        check_grid(ctx, nrows, ncols, codes, unit["maxinlets"], default_nval=first, light=unit.get("light", False))
+        check_grid(ctx, nrows, ncols, codes, unit["maxinlets"], default_nval=first, light=unit.get("light", False),
+                   dtypes=(unit["kind"] == "dev" and i % 7 == 0))
         first = False
         ctx.sup.end()
 
@@ -459,12 +514,12 @@ def replay(case):
         st = case["strip"]
         STRIP_TAG["current"] = st
         codes = strip_codes(st["n"], st["horizontal"], st["field"], st["dev"])
-        check_grid(ctx, nrows, ncols, codes, 0, outlets=case.get("outlets") or strip_outlets(st["n"]))
+        check_grid(ctx, nrows, ncols, codes, 0, outlets=case.get("outlets") or strip_outlets(st["n"]), dtypes=True)
         return [v for lst in ctx.violations.values() for v in lst]
     if case.get("prev"):
         scratch = Result()
         check_grid(scratch, case["prev"]["shape"][0], case["prev"]["shape"][1], case["prev"]["codes"], 0)
         check_grid(ctx, nrows, ncols, case["codes"], case.get("maxinlets", 0), prev=case["prev"])
         return [v for lst in ctx.violations.values() for v in lst]
-    check_grid(ctx, nrows, ncols, case["codes"], case.get("maxinlets", 1))
+    check_grid(ctx, nrows, ncols, case["codes"], case.get("maxinlets", 1), dtypes=bool(case.get("flowdir_dtype")))
     return [v for lst in ctx.violations.values() for v in lst]
